@@ -40,6 +40,10 @@ pub enum Target {
     ValueOptChoice,
     ValueOptInner,
     NestedOpts,
+    /// a single `$value` field whose enum has a `$text` NEWTYPE variant with a non-scalar payload
+    ValueListPayload,
+    ValueUnitPayload,
+    ValueTuplePayload,
 }
 
 /// `$value` / `$text` fields of optional type (xsi:nil handling paths)
@@ -181,6 +185,49 @@ pub struct UnitVec {
     a: Vec<UnitS>,
 }
 
+/// `$value` (not a list) of an enum whose `$text` newtype variant carries a list / a unit enum / a
+/// tuple struct
+#[derive(Deserialize, Debug)]
+pub enum ListPayload {
+    #[serde(rename = "$text")]
+    L(Vec<u32>),
+    E(u8),
+}
+#[derive(Deserialize, Debug)]
+pub enum UnitPayload {
+    #[serde(rename = "$text")]
+    U(crate::types::Tag),
+    E(u8),
+}
+#[derive(Deserialize, Debug)]
+pub struct PairS(pub u8, pub String);
+#[derive(Deserialize, Debug)]
+pub enum TuplePayload {
+    #[serde(rename = "$text")]
+    T(PairS),
+    E(u8),
+}
+#[derive(Deserialize, Debug)]
+#[allow(dead_code)]
+pub struct ValueListPayload {
+    #[serde(rename = "@a", default)]
+    a: Option<String>,
+    #[serde(rename = "$value")]
+    v: ListPayload,
+}
+#[derive(Deserialize, Debug)]
+#[allow(dead_code)]
+pub struct ValueUnitPayload {
+    #[serde(rename = "$value")]
+    v: UnitPayload,
+}
+#[derive(Deserialize, Debug)]
+#[allow(dead_code)]
+pub struct ValueTuplePayload {
+    #[serde(rename = "$value")]
+    v: TuplePayload,
+}
+
 pub const ALL_EXTRA: &[Target] = &[
     Target::TupleStrInner,
     Target::VecTupleInner,
@@ -208,6 +255,9 @@ pub const ALL_EXTRA: &[Target] = &[
     Target::ValueOptChoice,
     Target::ValueOptInner,
     Target::NestedOpts,
+    Target::ValueListPayload,
+    Target::ValueUnitPayload,
+    Target::ValueTuplePayload,
 ];
 
 /// valid-looking base documents for the extra targets (the family targets get theirs from
@@ -229,6 +279,7 @@ pub const EXTRA_DOCS: &[&str] = &[
     "\u{ff21}\u{ff22}c",
     "\u{fec1}x",
     "\u{ff21}<a>1</a>",
+    "<cell>1 2 3</cell>", "<cell a=\"x\">7</cell>", "<shape>A</shape>", "<cell><![CDATA[1 2]]></cell>", "<cell><E>3</E></cell>", "<cell>5 text</cell>",
 ];
 
 /// attribute snippets injected into start tags
@@ -512,7 +563,7 @@ pub fn info() -> PropInfo {
         id: "C07",
         run,
         replay,
-        rule: "cases = (target type, input text, entry point from_str or from_reader over a 3-byte BufReader). Targets: the 20 family types plus tuples, Vec of tuples, Option<struct>, (), String, HashMap, a struct of IgnoredAny, an enum with #[serde(other)] and $text, Vec<String>, bool, f64, char, Vec<enum>, a struct of Options incl. $text, lists of units. Inputs: valid documents (serialized generated values) after token-level mutation (insert/delete/duplicate/splice/replace of start tags, end tags, text, CDATA, comments, DOCTYPE incl. internal subsets, PIs, declarations, valid/unknown/malformed references, xsi:nil attributes, duplicate and malformed attributes), token soup over the same vocabulary, and every truncation of valid documents at every byte. Oracle: the call returns Ok or Err (catch_unwind); sequence/map targets use a counting visitor and a sequence that yields more items than the input has bytes is reported as non-termination; a watchdog maps other hangs to exit 2. Non-trivial = the input was mutated/truncated/soup and the event reader accepts its first event (it is not rejected at once).",
+        rule: "cases = (target type, input text, entry point from_str or from_reader over a 3-byte BufReader). Targets: the 20 family types plus tuples, Vec of tuples, Option<struct>, (), String, HashMap, a struct of IgnoredAny, an enum with #[serde(other)] and $text, Vec<String>, bool, f64, char, Vec<enum>, a struct of Options incl. $text, lists of units, structs with a single `$value` field whose enum has a `$text` newtype variant with a list / unit-enum / tuple-struct payload. Inputs: valid documents (serialized generated values) after token-level mutation (insert/delete/duplicate/splice/replace of start tags, end tags, text, CDATA, comments, DOCTYPE incl. internal subsets, PIs, declarations, valid/unknown/malformed references, xsi:nil attributes, duplicate and malformed attributes), token soup over the same vocabulary, and every truncation of valid documents at every byte. Oracle: the call returns Ok or Err (catch_unwind); sequence/map targets use a counting visitor and a sequence that yields more items than the input has bytes is reported as non-termination; a watchdog maps other hangs to exit 2. Non-trivial = the input was mutated/truncated/soup and the event reader accepts its first event (it is not rejected at once).",
         assumptions: &["a stack overflow on pathologically deep input would abort the process (reported as exit != 0/1 by the runner, not as a violation); generated nesting stays below 64"],
         level: "exploration",
         variants: &["full", "min"],
@@ -572,6 +623,9 @@ fn try_de_impl(t: &Target, xml: &str, bytes: &[u8], via_reader: bool) -> Result<
         Target::ValueOptChoice => go!(ValueOptChoice),
         Target::ValueOptInner => go!(ValueOptInner),
         Target::NestedOpts => go!(NestedOpts),
+        Target::ValueListPayload => go!(ValueListPayload),
+        Target::ValueUnitPayload => go!(ValueUnitPayload),
+        Target::ValueTuplePayload => go!(ValueTuplePayload),
     }
 }
 
@@ -621,6 +675,9 @@ pub fn try_de_debug(t: &Target, xml: &str, via: Option<Vec<usize>>) -> Result<St
         Target::ValueOptChoice => go!(ValueOptChoice),
         Target::ValueOptInner => go!(ValueOptInner),
         Target::NestedOpts => go!(NestedOpts),
+        Target::ValueListPayload => go!(ValueListPayload),
+        Target::ValueUnitPayload => go!(ValueUnitPayload),
+        Target::ValueTuplePayload => go!(ValueTuplePayload),
     }
 }
 
